@@ -10,7 +10,8 @@ from cvxopt.modeling import variable, op, constraint
 
 OPTS = {"show_progress": False}
 VALS = [k / 4.0 for k in range(-12, 13) if k != 0] + [1e-3, 125.0, -2048.0, 9999.5, 0.015625, 1e4]
-NAMES = ["", "x", "y", "ab", "cost", "var", "Z", "q1", "w_", "name"]
+NAMES = ["", "x", "y", "ab", "cost", "var", "Z", "q1", "w_", "name", "alpha123", "alpha124", "wvector", "0", "1", "longvariablename"]
+CNAMES = ["", "c", "row", "lim", "e1", "ineq", "constr", "constraint1", "constraint2", "cost", "0", "2"]
 TMP = os.environ.get("VERIF_OVERLAY") or tempfile.gettempdir()
 
 
@@ -25,17 +26,18 @@ def tmpfile(tag):
 @st.composite
 def lp_case(draw):
     nv = draw(st.integers(1, 3))
-    lens = [draw(st.integers(1, 3)) for _ in range(nv)]
+    # mostly short variables; now and then one with more than ten components (two-digit component numbers in the labels)
+    lens = [draw(st.integers(1, 3)) if draw(st.integers(0, 7)) else draw(st.integers(10, 12)) for _ in range(nv)]
     vnames = draw(st.lists(st.sampled_from(NAMES[1:]), min_size=nv, max_size=nv, unique=True))
     if draw(st.booleans()):
         vnames = [""] * nv
     cons = []
     ncon = draw(st.integers(1, 4))
-    cnames = draw(st.lists(st.sampled_from(["", "c", "row", "lim", "e1", "ineq"]), min_size=ncon, max_size=ncon))
+    cnames = draw(st.lists(st.sampled_from(CNAMES), min_size=ncon, max_size=ncon))
     if len(set(n for n in cnames if n)) != len([n for n in cnames if n]):
         cnames = [""] * ncon
     for j in range(ncon):
-        L = draw(st.integers(1, 3))
+        L = draw(st.integers(1, 3)) if draw(st.integers(0, 7)) else draw(st.integers(10, 12))
         terms = []
         for k in draw(st.lists(st.integers(0, nv - 1), min_size=1, max_size=nv, unique=True)):
             shape = draw(st.sampled_from(["matrix", "matrix", "row", "scalar"]))
@@ -122,6 +124,16 @@ def label(name, k, i):
     return (base[:(7 - len(str(i)))] + "_" + str(i))[:8]
 
 
+def base_names(objs):
+    """Names (or positions) from which the writer builds its 8-character labels; positions for all of them when the
+    truncated labels of two different rows/columns would coincide (the names only have to be distinct, C14)."""
+    names = [o.name if o.name else str(k) for k, o in enumerate(objs)]
+    labels = [label(nm, k, i) for k, (nm, o) in enumerate(zip(names, objs)) for i in range(len(o))]
+    if len(set(labels)) < len(labels):
+        names = [str(k) for k in range(len(objs))]
+    return names
+
+
 def roundtrip_oracle(case, stats=None):
     P, xs, cons, rows, ocoef = build_lp(case)
     lens = case["lens"]
@@ -134,22 +146,17 @@ def roundtrip_oracle(case, stats=None):
         idx += len(cc)
     pvars = P.variables()
     labels_v = {}
+    vbase = base_names(pvars)
     for k, v in enumerate(pvars):
         kk = [j for j, x in enumerate(xs) if x is v][0]
         for i in range(len(v)):
-            labels_v[(kk, i)] = label(v.name, k, i)
-    if len(set(labels_v.values())) != len(labels_v):
-        if stats is not None:
-            stats.evaluated(case, False, ["roundtrip", "skipped:label_collision"])
-        return
+            labels_v[(kk, i)] = label(vbase[k], k, i)
     labels_r = []
+    cbase = base_names(order)
     for j, cc in enumerate(order):
         for l in range(len(cc)):
-            labels_r.append((label(cc.name, j, l), rows_by_con[id(cc)][l]))
-    if len(set(l for l, _ in labels_r)) != len(labels_r):
-        if stats is not None:
-            stats.evaluated(case, False, ["roundtrip", "skipped:label_collision"])
-        return
+            labels_r.append((label(cbase[j], j, l), rows_by_con[id(cc)][l]))
+    collide = [nm for nm, o in zip(vbase, pvars) if o.name and nm != o.name] + [nm for nm, o in zip(cbase, order) if o.name and nm != o.name]
     fn = tmpfile("rt")
     try:
         try:
@@ -259,6 +266,10 @@ def roundtrip_oracle(case, stats=None):
                 raise Violation("optimal value of the linear part before %r, after %r" % (a, b))
     nontrivial = any(l > 1 for l in lens) and any(t["shape"] == "matrix" for c in case["cons"] for t in c["terms"]) and \
         any(c["type"] == "=" for c in case["cons"])
+    if collide:
+        labels = labels + ["names_collide_after_truncation"]
+    if max(lens) >= 10 or any(c["L"] >= 10 for c in case["cons"]):
+        labels = labels + ["two_digit_component_numbers"]
     if stats is not None:
         stats.evaluated(case, nontrivial, labels)
 
